@@ -46,6 +46,7 @@ const FAULT_KINDS: &[&str] = &[
   "unchanged_documents_in_batch",
   "emptied_document",
   "standard_library_module_edited",
+  "file_gone_right_after_request",
 ];
 
 struct FaultPlan {
@@ -520,6 +521,56 @@ fn generate_synthetic(run_seed: u64, mode: Mode, mut w: Rng, f: Rng) -> Scenario
       4 => {
         for _ in 0..w.range(1, 4) {
           ops.push(gen_query(&mut w, &belief, &removed, &universe));
+        }
+        if faults.on("file_gone_right_after_request", 1, 6) {
+          // the file a request is about disappears (deleted or moved) while the request may still
+          // be in flight: preceded by an edit of another file (whose diagnostics are still being
+          // published), followed by nothing that would let the server drain
+          if let Some(Op::Query { module, kind, line, col, arg }) = ops.last().cloned() {
+            if belief.contains_key(&module) {
+              // mostly a request that has something to do: a rename of a `let`-bound name
+              if w.chance(2, 3) {
+                let text = belief[&module].clone();
+                let lets: Vec<(u32, u32)> = text
+                  .split('\n')
+                  .enumerate()
+                  .filter_map(|(l, line)| line.find("let ").map(|c| (l as u32, (c + 4) as u32)))
+                  .filter(|(l, c)| {
+                    text.split('\n').nth(*l as usize).and_then(|x| x.as_bytes().get(*c as usize)).map(|b| b.is_ascii_lowercase()).unwrap_or(false)
+                  })
+                  .collect();
+                if !lets.is_empty() {
+                  let (l, c) = *w.pick(&lets);
+                  ops.pop();
+                  ops.push(Op::Query { kind: "rename".into(), module: module.clone(), line: l, col: c, arg: "renamedBeforeTheFileWentAway".into() });
+                }
+              }
+              let others: Vec<ModName> = belief.keys().filter(|m| **m != module).cloned().collect();
+              if !others.is_empty() {
+                let o = w.pick(&others).clone();
+                let t = g.gen_module(&mut w, &o, true);
+                belief.insert(o.clone(), t.clone());
+                let q = ops.pop().unwrap();
+                ops.push(Op::Update(vec![(o, t)]));
+                ops.push(q);
+                let _ = (kind, line, col, arg);
+              }
+              if w.chance(1, 2) {
+                belief.remove(&module);
+                removed.push(module.clone());
+                ops.push(Op::Remove(vec![module]));
+              } else {
+                fresh_names += 1;
+                let to: ModName = vec![format!("MovedWhileRequested{fresh_names}")];
+                if let Some(t) = belief.remove(&module) {
+                  belief.insert(to.clone(), t);
+                }
+                removed.push(module.clone());
+                ops.push(Op::Rename(vec![(module, to)]));
+              }
+              faults.fired.inc("file_gone_right_after_request");
+            }
+          }
         }
       }
       _ => {
